@@ -9,7 +9,7 @@ import tempfile
 import time
 
 RLIMIT = int(os.environ.get("PYVC_RLIMIT", "60000000"))
-WALL_S = int(os.environ.get("PYVC_WALL_S", "60"))
+WALL_S = int(os.environ.get("PYVC_WALL_S", "25"))
 
 
 def _solve(job):
@@ -19,8 +19,7 @@ def _solve(job):
     try:
         # Attempt schedule: the first attempt decides almost everything; an `unknown` is retried with other
         # (fixed, hence reproducible) random seeds / quantifier settings.  Any `unsat` is a proof; `sat` stops at once.
-        attempts = [({}, 1), ({"smt.random_seed": 7}, 1), ({"smt.random_seed": 23, "smt.mbqi": False}, 1),
-                    ({"smt.random_seed": 101, "smt.qi.eager_threshold": 100.0}, 2)]
+        attempts = [({}, 1), ({"smt.random_seed": 7}, 1), ({"smt.random_seed": 23, "smt.mbqi": False}, 1)]
         res, model, reason = "unknown", None, ""
         for n_att, (opts, mult) in enumerate(attempts):
             s = z3.Solver()
